@@ -126,7 +126,7 @@ def run(ctx):
     sq.start()
     try:
         async def main():
-            return await escen.gather_limited([realise(ctx, sq, i + 1, s, random.Random(ctx.seed * 100003 + i)) for i, s in enumerate(scens)], limit=10)
+            return await escen.gather_limited([realise(ctx, sq, i + 1, s, random.Random(ctx.seed * 100003 + i)) for i, s in enumerate(scens * (12 if ctx.thorough else 1))], limit=10)
         out = [o for o in asyncio.run(main()) if o]
         if not sq.alive():
             ctx.violation('squid exited during the run', {'kind': 'exit', 'log': sq.tail_log()})
